@@ -22,11 +22,14 @@ type NilSpec struct {
 	// 3 a nested graph that returns nil, then a consumer                4 the same as 0 in a Workflow
 	// 5 n under an output key -> END (the map {k: nil})                 6 the same as 0 in a Chain
 	// 7 START -> n -> END and START -> a -> END through output keys (fan-in of a nil and a string)
+	// 8 START -> n (output key k) -> m (input key k, input type any) -> END: the nil travels under a key
+	// 9 START -> m (input key k, input type any) -> END called with the map {k: nil}
 	Shape  int     `json:"shape"`
 	Nat    [4]bool `json:"nat"`    // natives of the nil-returning lambda
 	NChunk int     `json:"nchunk"` // its S / T natives deliver this many nil chunks (1 or 2)
 	DAG    bool    `json:"dag,omitempty"`
-	Pipe   bool    `json:"pipe,omitempty"` // pipe-backed instead of array-backed output stream
+	Pipe   bool    `json:"pipe,omitempty"`  // pipe-backed instead of array-backed output stream
+	NilIn  bool    `json:"nilin,omitempty"` // the graph is called with a nil input (shapes with input type any)
 }
 
 func nilStream(n int, pipe bool) *schema.StreamReader[any] {
@@ -147,6 +150,17 @@ func compileNil(sp *NilSpec, rec *recorder) (compose.Runnable[any, any], error) 
 			return nil, err
 		}
 		return eraseOut[map[string]any]{r}, nil
+	case 8:
+		return plain(func(g *compose.Graph[any, any]) error {
+			return first(g.AddLambdaNode("n", nilLambda(sp, rec), compose.WithOutputKey("k")),
+				g.AddLambdaNode("m", showLambda("m"), compose.WithInputKey("k")),
+				g.AddEdge(compose.START, "n"), g.AddEdge("n", "m"), g.AddEdge("m", compose.END))
+		})
+	case 9:
+		return plain(func(g *compose.Graph[any, any]) error {
+			return first(g.AddLambdaNode("m", showLambda("m"), compose.WithInputKey("k")),
+				g.AddEdge(compose.START, "m"), g.AddEdge("m", compose.END))
+		})
 	case 6:
 		ch := compose.NewChain[any, any]()
 		ch.AppendLambda(nilLambda(sp, rec))
@@ -236,8 +250,11 @@ func runNil(c *Case) lib.Result {
 		return res
 	}
 	var input any = "x"
-	if sp.Shape == 1 {
+	if sp.Shape == 1 || sp.NilIn {
 		input = nil
+	}
+	if sp.Shape == 9 {
+		input = map[string]any{"k": nil}
 	}
 	ctx := context.Background()
 	value := func(v any, err error) POut {
